@@ -91,6 +91,8 @@ def rule_units(tier):
     k = 0
     from sse import harvest
     for name, text in harvest.cls_pairs():
+        name = str(name)
+        text = str(text)
         pos = [i for i, ch in enumerate(text) if ch.isalnum()]
         if not pos:
             continue
